@@ -1,5 +1,6 @@
 import LlirProofs.CoreLemmas
 import LlirProofs.Core2Mod
+import LlirProofs.Props.C01
 /-! # C02 — Printed output is a fixpoint of parse and print (property theorems only; PARTIAL: M-Core) -/
 namespace Llir.Props.C02
 open Llir Llir.Core
@@ -51,5 +52,18 @@ theorem core2_one_step_fixpoint (useHex : Int → Bool) (m : Core2.Mod) (h : Cor
 
 theorem core2_canon_idem (m : Core2.Mod) (h : Core2.WF m) : Core2.canon (Core2.canon m) = Core2.canon m :=
   Core2.canon_idem m ((Core2.hasDup_false_iff_nodup _).mp h.nodupT)
+
+/-! ## M-Core-3: function definitions -/
+
+/-- the printed text of a well-formed function is a fixpoint of parse-then-print, reached in one step, and the second parse returns the same function -/
+theorem core3_one_step_fixpoint (useHex : Int → Bool) (f : Core3.Func) (h : Core3.wf f = true) :
+    (Core3.parse (Core3.printFunc useHex f)).map (Core3.printFunc useHex) = some (Core3.printFunc useHex f) := by
+  rw [C01.core3_roundtrip useHex f h]; rfl
+
+theorem core3_second_parse_identical (useHex : Int → Bool) (f g : Core3.Func) (h : Core3.wf f = true)
+    (hg : Core3.parse (Core3.printFunc useHex f) = some g) : Core3.parse (Core3.printFunc useHex g) = some g := by
+  rw [C01.core3_roundtrip useHex f h] at hg
+  injection hg with hg; subst hg
+  exact C01.core3_roundtrip useHex f h
 
 end Llir.Props.C02
